@@ -10,15 +10,18 @@ THR = 10 ** (-6)
 # then exercised, and the usual oracles judge the result — the log level must not change behaviour
 DEBUG_EVERY = 3
 _calls = {"n": 0}
-FORCE_DEBUG = {"on": False}
+FORCE_DEBUG = {"on": None}
 
 
 class forced_debug:
     """with impl.forced_debug(): ... — every runner call inside runs at DEBUG log level"""
 
+    def __init__(self, on=True):
+        self.on = on          # False: no DEBUG pass inside (very long runs, where the log records dominate the time)
+
     def __enter__(self):
         self.old = FORCE_DEBUG["on"]
-        FORCE_DEBUG["on"] = True
+        FORCE_DEBUG["on"] = self.on
 
     def __exit__(self, *a):
         FORCE_DEBUG["on"] = self.old
@@ -33,7 +36,7 @@ def maybe_debug():
     _calls["n"] += 1
     root = _logging.getLogger()
     old = root.level
-    dbg = FORCE_DEBUG["on"] or (DEBUG_EVERY and _calls["n"] % DEBUG_EVERY == 0)
+    dbg = FORCE_DEBUG["on"] is True or (FORCE_DEBUG["on"] is not False and DEBUG_EVERY and _calls["n"] % DEBUG_EVERY == 0)
     if dbg:
         root.setLevel(_logging.DEBUG)
     try:
